@@ -17,8 +17,8 @@ TABLE = {
     "C15": (["search_cond"], 80, 1200, 30, False),
     "C16": (["search_slice"], 80, 1200, 30, False),
     "C17": (["search_path", "search_pathcost"], 80, 1200, 30, False),
-    "C05": (["maint", "maint_file", "maint_memory", "variants_big"], 30, 400, 40, False),
-    "C06": (["variants", "variants_big"], 25, 300, 40, False),
+    "C05": (["maint", "maint_file", "maint_memory", "variants_big", "variants_huge"], 30, 400, 40, False),
+    "C06": (["variants", "variants_big", "variants_huge"], 25, 300, 40, False),
     "C12": (["values"], 40, 500, 40, False),
     "C22": (["types"], 30, 400, 40, False),
 }
